@@ -189,6 +189,21 @@ def run_case(case):
             if any(isinstance(x_, float) and x_ == 0.625 for x_ in flatB):
                 vs.append({"clause": "building the functions again from the same model gives the same results", "detail": "the template of a fresh build already contains values written into the template of an earlier build"})
 
+        # the template object of the first build now holds other values (0.625 everywhere, written above) and is NOT passed:
+        # a call with separately built params - additional targets included - is determined by those params alone
+        if not vs:
+            from props.c13 import target_pool
+
+            tg = target_pool(mj)
+            _fill(fns.sim_template, 0.625)      # the template that came with the simulate function, edited by its owner as well
+            if tg:
+                want = _frame_key(ref.simulate(params_impl(Pa), initial_states=init_impl(mj, inits[0]), vf_arr_list=Vref[0], seed=seeds[0], additional_targets=tg))
+                got = _frame_key(fns.simulate(params_impl(Pa), initial_states=init_impl(mj, inits[0]), vf_arr_list=Vref[0], seed=seeds[0], additional_targets=tg))
+                evals += 1
+                out["hist"]["targets_after_template_was_edited"] = 1
+                if got != want:
+                    vs.append({"clause": "a call returns the result determined by its own arguments",
+                               "detail": f"simulate with additional targets {tg}: after other values were written into the (not passed) template object of this build, the frame differs from that of a fresh function object called with the same arguments"})
         solve2, tmpl2 = get_lcm_function(model, targets="solve")
         V2 = [np.asarray(v) for v in solve2(params_impl(Pa))]
         evals += 1
